@@ -29,7 +29,7 @@ REWRITE_TABLE = [
     "round(x[,n])         -> proxy: nearest multiple of 10^-n, either tie choice",
     "Fraction(n[,d])      -> proxy: n or n/d",
     "map(int|float, it)   -> element-wise the above",
-    "<e>.astype(T)        -> proxy cells: int = element-wise truncation, float = identity",
+    "<e>.astype(T), <e>.to_numpy(T) -> proxy cells: int = element-wise truncation, float = identity",
     "np.isnan(x)          -> proxy: False, None: True (object columns hold None where float64 holds NaN)",
     "np.lcm(a,b)          -> proxy: solver-driven concretisation, then numpy",
     "np.isclose(a,b,..)   -> proxy: |a-b| <= atol + rtol*|b| element-wise (forks); np.isfinite -> proxy: True",
@@ -64,7 +64,12 @@ class _T(ast.NodeTransformer):
                 node.func = self._name(f, f.id)
                 self.n += 1
         elif isinstance(f, ast.Attribute):
-            if f.attr == "astype":
+            if f.attr == "to_numpy" and (node.args or node.keywords):
+                node = ast.copy_location(
+                    ast.Call(ast.Name("__sym_to_numpy__", ast.Load()), [f.value] + node.args, node.keywords), node
+                )
+                self.n += 1
+            elif f.attr == "astype":
                 node = ast.copy_location(
                     ast.Call(ast.Name("__sym_astype__", ast.Load()), [f.value] + node.args, node.keywords), node
                 )
@@ -216,6 +221,16 @@ def sym_astype(obj, dtype, *a, **kw):
     return obj.astype(dtype, *a, **kw)
 
 
+def sym_to_numpy(obj, dtype=None, *a, **kw):
+    """<e>.to_numpy(dtype): cells holding proxies stay objects (float = identity, int = truncation)"""
+    if isinstance(obj, (pd.Series, pd.DataFrame)) and dtype is not None:
+        cells = obj.array if isinstance(obj, pd.Series) else obj.to_numpy().ravel()
+        if _has_sym(cells):
+            arr = obj.to_numpy(*a, **kw)
+            return sym_astype(arr, dtype)
+    return obj.to_numpy(dtype, *a, **kw)
+
+
 def sym_np_isnan(x, *a, **kw):
     if isinstance(x, SymNum):
         return False
@@ -317,6 +332,7 @@ IMPL = {
     "round": sym_round,
     "Fraction": sym_Fraction,
     "astype": sym_astype,
+    "to_numpy": sym_to_numpy,
     "np_isnan": sym_np_isnan,
     "np_lcm": sym_np_lcm,
     "np_isclose": sym_np_isclose,
